@@ -54,4 +54,30 @@ CHECKS = {
              "outside": "histories longer than the bound; OS-level write reordering; crashes inside a bbolt commit"},
         ],
     },
+    "C16": {
+        "assumptions": COMMON_ASSUMPTIONS + [
+            "sync.Map is modelled as a linearizable association list; context switches happen only at synchronisation operations (sync.Map methods, mutex operations, channel operations), which is sound for data-race-free code only (C18 is not claimed)",
+            "Value.Size() is constant per value except for at most one failing call per history",
+        ],
+        "groups": [
+            {"name": "seq", "pkg": "lru", "moddir": "cache", "harness_dir": "lru", "harness": "VerifH_C16_sequential",
+             "inits": ["github.com/lightninglabs/neutrino/cache/lru", "github.com/lightninglabs/neutrino/cache"],
+             "anchored_files": ["lru/lru.go", "lru/sync_map.go", "lru/list.go", "cache.go"],
+             "params": {"ops": 3, "keys": 2, "sizecalls": 6}, "thorough": {"params": {"ops": 4, "keys": 2, "sizecalls": 8}},
+             "must_reach": {"VerifH_C16_sequential": ["put-error", "put-too-big", "delete-error", "after-failed-op"]},
+             "outside": "histories longer than ops, more than keys keys, more than one failing Size() call per history"},
+            {"name": "conc", "pkg": "lru", "moddir": "cache", "harness_dir": "lru", "harness": "VerifH_C16_concurrent",
+             "inits": ["github.com/lightninglabs/neutrino/cache/lru", "github.com/lightninglabs/neutrino/cache"],
+             "anchored_files": ["lru/lru.go", "lru/sync_map.go", "lru/list.go"],
+             "params": {"threads": 2, "keys": 2, "preempt": 2, "maxcap": 2}, "thorough": {"params": {"threads": 2, "keys": 2, "preempt": 3, "maxcap": 3}},
+             "no_native_replay": "the counterexample is a schedule of index/mutex operations; the native Go runtime cannot be forced to follow it without yield hooks in lru.go",
+             "outside": "more than 2 concurrent operations (3 in the conc3 group), Range* racing with writers, preemptions beyond the bound"},
+            {"name": "conc3", "pkg": "lru", "moddir": "cache", "harness_dir": "lru", "harness": "VerifH_C16_concurrent", "thorough_only": True,
+             "inits": ["github.com/lightninglabs/neutrino/cache/lru", "github.com/lightninglabs/neutrino/cache"],
+             "anchored_files": ["lru/lru.go"],
+             "params": {"threads": 3, "keys": 2, "preempt": 1, "maxcap": 2},
+             "no_native_replay": "schedule-dependent counterexample",
+             "outside": "more than 3 concurrent operations"},
+        ],
+    },
 }
